@@ -584,9 +584,15 @@ def scratch_maker_obligations(repo, chk, rule, why):
     tests = [n for n in walk_local(tr.node) if isinstance(n, ast.If) and isinstance(n.test, ast.Compare) and isinstance(n.test.ops[0], ast.In)
              and isinstance(n.test.left, ast.Constant) and n.test.left.value == "#WRAP"]
     ok, found = False, "no `'#WRAP' in <globals>` branch"
-    if len(tests) == 1 and tests[0].body:
-        st = tests[0].body[0]
-        val = st.value if isinstance(st, (ast.Assign, ast.Expr, ast.Return)) else None
+    # the same decision written as a conditional expression
+    conds_ = [n for n in walk_local(tr.node) if isinstance(n, ast.IfExp) and isinstance(n.test, ast.Compare) and isinstance(n.test.ops[0], ast.In)
+              and isinstance(n.test.left, ast.Constant) and n.test.left.value == "#WRAP"]
+    if len(tests) + len(conds_) == 1:
+        if tests:
+            st = tests[0].body[0]
+            val = st.value if isinstance(st, (ast.Assign, ast.Expr, ast.Return)) else None
+        else:
+            st = val = conds_[0].body
         fc = first_call(val) if val is not None else None
         found = norm(fc)[:50] if fc is not None else f"`{norm(st)[:50]}`"
         risky = val is not None and any(isinstance(n, ast.Attribute) and n.attr == "cell_contents" for n in ast.walk(val)) and fc is None
